@@ -135,7 +135,11 @@ class SimFS:
             if torn is not None:
                 self.files[path] = data[: max(0, min(len(data) - 1, torn))]
             raise OSError(errno.ENOSPC, "No space left on device", path)
-        self.files[path] = data
+        old = self.files.get(path)
+        if isinstance(old, bytearray) and len(old) == len(data):
+            old[:] = data  # same file, rewritten: live maps of it see the new content
+        else:
+            self.files[path] = data
 
     def load(self, file, *args, **kw):
         path = str(file)
@@ -153,7 +157,25 @@ class SimFS:
         data = self.files.get(path)
         if data is None:
             raise FileNotFoundError(errno.ENOENT, "No such file or directory", path)
-        return real_numpy.load(io.BytesIO(data), *args, **kw)
+        mmap_mode = kw.get("mmap_mode") or (args[0] if args else None)
+        if mmap_mode:
+            # a memory map is a live view of the file: emulate it with a view of the
+            # stored buffer, which a later save of the same path overwrites in place
+            from numpy.lib import format as npf
+
+            if not isinstance(data, bytearray):
+                data = self.files[path] = bytearray(data)
+            f = io.BytesIO(bytes(data))
+            version = npf.read_magic(f)
+            shape, fortran, dtype = npf._read_array_header(f, version)
+            if dtype.hasobject:
+                raise ValueError("Array can't be memory-mapped: Python objects in dtype.")
+            arr = real_numpy.frombuffer(data, dtype=dtype, offset=f.tell()).reshape(shape, order="F" if fortran else "C")
+            if mmap_mode == "r":
+                arr.flags.writeable = False
+            self.n["mmap"] = self.n.get("mmap", 0) + 1
+            return arr
+        return real_numpy.load(io.BytesIO(bytes(data)), *args, **kw)
 
     # os ---------------------------------------------------------------------- #
     def isdir(self, path):
